@@ -186,7 +186,22 @@ func Literal(cfg *Config, word *syntax.Word) (string, error) {
 		return "", nil
 	}
 	cfg = prepareConfig(cfg)
-	field, err := cfg.wordField(word.Parts, quoteNone)
+	field, err := cfg.wordField(word.Parts, quoteNone, true)
+	if err != nil {
+		return "", err
+	}
+	return cfg.fieldJoin(field), nil
+}
+
+// literalKeepEscapes is like [Literal], but it leaves the backslash escapes of
+// unquoted literals in place, for words inside parameter expansions such as
+// ${var:-word}, where whether they are removed depends on the outer quoting.
+func literalKeepEscapes(cfg *Config, word *syntax.Word) (string, error) {
+	if word == nil {
+		return "", nil
+	}
+	cfg = prepareConfig(cfg)
+	field, err := cfg.wordField(word.Parts, quoteNone, false)
 	if err != nil {
 		return "", err
 	}
@@ -204,7 +219,7 @@ func Document(cfg *Config, word *syntax.Word) (string, error) {
 		return "", nil
 	}
 	cfg = prepareConfig(cfg)
-	field, err := cfg.wordField(word.Parts, quoteHeredoc)
+	field, err := cfg.wordField(word.Parts, quoteHeredoc, false)
 	if err != nil {
 		return "", err
 	}
@@ -222,7 +237,7 @@ func Pattern(cfg *Config, word *syntax.Word) (string, error) {
 		return "", nil
 	}
 	cfg = prepareConfig(cfg)
-	field, err := cfg.wordField(word.Parts, quoteNone)
+	field, err := cfg.wordField(word.Parts, quoteNone, false)
 	if err != nil {
 		return "", err
 	}
@@ -542,7 +557,10 @@ const (
 	quoteSingle
 )
 
-func (cfg *Config) wordField(wps []syntax.WordPart, ql quoteLevel) ([]fieldPart, error) {
+// wordField expands a word into a single field, without any field splitting.
+// If unescape is set, backslash escapes in unquoted literals are removed,
+// like [Config.wordFields] does.
+func (cfg *Config) wordField(wps []syntax.WordPart, ql quoteLevel, unescape bool) ([]fieldPart, error) {
 	var field []fieldPart
 	for i, wp := range wps {
 		switch wp := wp.(type) {
@@ -554,6 +572,9 @@ func (cfg *Config) wordField(wps []syntax.WordPart, ql quoteLevel) ([]fieldPart,
 					// like in wordFields?
 					s = prefix + rest
 				}
+			}
+			if ql == quoteNone && unescape && strings.Contains(s, "\\") {
+				s = unescapeLit(cfg.strBuilder(), s)
 			}
 			if (ql == quoteDouble || ql == quoteHeredoc) && strings.Contains(s, "\\") {
 				sb := cfg.strBuilder()
@@ -585,7 +606,7 @@ func (cfg *Config) wordField(wps []syntax.WordPart, ql quoteLevel) ([]fieldPart,
 			}
 			field = append(field, fp)
 		case *syntax.DblQuoted:
-			wfield, err := cfg.wordField(wp.Parts, quoteDouble)
+			wfield, err := cfg.wordField(wp.Parts, quoteDouble, false)
 			if err != nil {
 				return nil, err
 			}
@@ -627,6 +648,23 @@ func (cfg *Config) wordField(wps []syntax.WordPart, ql quoteLevel) ([]fieldPart,
 		}
 	}
 	return field, nil
+}
+
+// unescapeLit removes the backslash escapes from an unquoted literal,
+// such as turning "foo\\ bar" into "foo bar". A trailing backslash is kept.
+func unescapeLit(sb *strings.Builder, s string) string {
+	for i := 0; i < len(s); i++ {
+		b := s[i]
+		if b == '\\' {
+			if i++; i >= len(s) {
+				sb.WriteByte(b)
+				break
+			}
+			b = s[i]
+		}
+		sb.WriteByte(b)
+	}
+	return sb.String()
 }
 
 func (cfg *Config) cmdSubst(cs *syntax.CmdSubst) (string, error) {
@@ -715,19 +753,7 @@ func (cfg *Config) wordFields(wps []syntax.WordPart) ([][]fieldPart, error) {
 				continue
 			}
 			if strings.Contains(s, "\\") {
-				sb := cfg.strBuilder()
-				for i := 0; i < len(s); i++ {
-					b := s[i]
-					if b == '\\' {
-						if i++; i >= len(s) {
-							sb.WriteByte(b)
-							break
-						}
-						b = s[i]
-					}
-					sb.WriteByte(b)
-				}
-				s = sb.String()
+				s = unescapeLit(cfg.strBuilder(), s)
 			}
 			curField = append(curField, fieldPart{val: s})
 		case *syntax.SglQuoted:
@@ -759,7 +785,7 @@ func (cfg *Config) wordFields(wps []syntax.WordPart) ([][]fieldPart, error) {
 				}
 			}
 			allowEmpty = true
-			wfield, err := cfg.wordField(wp.Parts, quoteDouble)
+			wfield, err := cfg.wordField(wp.Parts, quoteDouble, false)
 			if err != nil {
 				return nil, err
 			}
